@@ -17,7 +17,8 @@ use super::ops::{
     blob_for, decode_b, event_trace_push, Emitted, Event, EventAlt, LegacyCtx, OpA, OpB, SimEffect, Token,
 };
 
-pub type Handles = BTreeMap<u32, Box<dyn Fn() + Send + Sync>>;
+/// abort handles the app keeps, shared with the tasks of its commands (a task may abort a command)
+pub type Handles = Arc<std::sync::Mutex<BTreeMap<u32, Arc<dyn Fn() + Send + Sync>>>>;
 
 type RB<Ef> = RequestBuilder<Ef, Event, BoxFuture<'static, u64>>;
 type SB<Ef> = StreamBuilder<Ef, Event, BoxStream<'static, u64>>;
@@ -110,7 +111,7 @@ fn build_chain<Ef: SimEffect>(c: &Chain, init: u64) -> Command<Ef, Event> {
     }
 }
 
-pub fn build<Ef: SimEffect>(cmd: &Cmd, init: u64, h: &mut Handles, legacy: Option<&LegacyCtx>) -> Command<Ef, Event> {
+pub fn build<Ef: SimEffect>(cmd: &Cmd, init: u64, h: &Handles, legacy: Option<&LegacyCtx>) -> Command<Ef, Event> {
     match cmd {
         Cmd::Done => Command::done(),
         Cmd::Event { tag, label } => Command::event(Event::Emitted(Emitted {
@@ -159,14 +160,15 @@ pub fn build<Ef: SimEffect>(cmd: &Cmd, init: u64, h: &mut Handles, legacy: Optio
         }
         Cmd::Async(t) => {
             let t = t.clone();
+            let hs = h.clone();
             Command::new(move |ctx| async move {
-                interp::<Ef>(t, init, ctx).await;
+                interp_with::<Ef>(t, init, ctx, BTreeMap::new(), hs).await;
             })
         }
         Cmd::Abortable(hid, x) => {
             let c = build::<Ef>(x, init, h, legacy);
             let handle = c.abort_handle();
-            h.insert(*hid, Box::new(move || handle.abort()));
+            h.lock().unwrap().insert(*hid, Arc::new(move || handle.abort()));
             c
         }
         Cmd::Legacy(t) => {
@@ -195,9 +197,10 @@ impl Future for YieldOnce {
     }
 }
 
+#[derive(Clone)]
 struct Slot {
-    abort: Box<dyn Fn() + Send + Sync>,
-    join: Box<dyn Fn() -> BoxFuture<'static, ()> + Send + Sync>,
+    abort: Arc<dyn Fn() + Send + Sync>,
+    join: Arc<dyn Fn() -> BoxFuture<'static, ()> + Send + Sync>,
 }
 
 struct Env {
@@ -207,17 +210,20 @@ struct Env {
     seq: u32,
     slots: BTreeMap<u32, Slot>,
     tokens: Vec<Token>,
+    handles: Handles,
 }
 
-pub fn interp<Ef: SimEffect>(task: Task, init: u64, ctx: CommandContext<Ef, Event>) -> BoxFuture<'static, u64> {
+/// `slots`: join handles inherited from the enclosing task (branches of a join / select may await them)
+fn interp_with<Ef: SimEffect>(task: Task, init: u64, ctx: CommandContext<Ef, Event>, slots: BTreeMap<u32, Slot>, handles: Handles) -> BoxFuture<'static, u64> {
     async move {
         let mut env = Env {
             acc: init,
             em_label: task.label,
             em_start: init,
             seq: 0,
-            slots: BTreeMap::new(),
+            slots,
             tokens: vec![],
+            handles,
         };
         run_stmts::<Ef>(&task.stmts, &mut env, &ctx).await;
         env.acc
@@ -285,16 +291,17 @@ fn run_stmts<'a, Ef: SimEffect>(
                 Stmt::Spawn { task, slot } => {
                     let t = task.clone();
                     let acc = env.acc;
+                    let hs = env.handles.clone();
                     let handle = ctx.spawn(move |c| async move {
-                        interp::<Ef>(t, acc, c).await;
+                        interp_with::<Ef>(t, acc, c, BTreeMap::new(), hs).await;
                     });
                     if let Some(slot) = slot {
                         let h2 = handle.clone();
                         env.slots.insert(
                             *slot,
                             Slot {
-                                abort: Box::new(move || h2.abort()),
-                                join: Box::new(move || handle.clone().boxed()),
+                                abort: Arc::new(move || h2.abort()),
+                                join: Arc::new(move || handle.clone().boxed()),
                             },
                         );
                     }
@@ -311,13 +318,13 @@ fn run_stmts<'a, Ef: SimEffect>(
                     }
                 }
                 Stmt::JoinAll(ts) => {
-                    let futs: Vec<_> = ts.iter().map(|t| interp::<Ef>(t.clone(), env.acc, ctx.clone())).collect();
+                    let futs: Vec<_> = ts.iter().map(|t| interp_with::<Ef>(t.clone(), env.acc, ctx.clone(), env.slots.clone(), env.handles.clone())).collect();
                     futures::future::join_all(futs).await;
                 }
                 Stmt::SelectFirst(ts) => {
                     if !ts.is_empty() {
                         let futs: Vec<_> =
-                            ts.iter().map(|t| interp::<Ef>(t.clone(), env.acc, ctx.clone())).collect();
+                            ts.iter().map(|t| interp_with::<Ef>(t.clone(), env.acc, ctx.clone(), env.slots.clone(), env.handles.clone())).collect();
                         let (v, _idx, rest) = futures::future::select_all(futs).await;
                         drop(rest);
                         env.acc = v;
@@ -342,6 +349,12 @@ fn run_stmts<'a, Ef: SimEffect>(
                     }
                 }
                 Stmt::HoldToken => env.tokens.push(Token::new()),
+                Stmt::AbortCmd(h) => {
+                    let f = env.handles.lock().unwrap().get(h).cloned();
+                    if let Some(f) = f {
+                        f();
+                    }
+                }
             }
         }
     }
@@ -440,7 +453,7 @@ fn legacy_stmts<'a>(stmts: &'a [Stmt], env: &'a mut LEnv, ctx: &'a LegacyCtx) ->
                 }
                 Stmt::HoldToken => env.tokens.push(Token::new()),
                 // not expressible with the legacy API: ignored (the generator does not emit them)
-                Stmt::Join(_) | Stmt::AbortTask(_) | Stmt::AwaitChain { .. } => {}
+                Stmt::Join(_) | Stmt::AbortTask(_) | Stmt::AwaitChain { .. } | Stmt::AbortCmd(_) => {}
             }
         }
     }
